@@ -138,10 +138,29 @@ func checkC13(c *Ctx) {
 		callee string
 		val    string
 	}{{"CellBuffer).LockCell", "true"}, {"CellBuffer).UnlockCell", "false"}} {
-		calls := callsIn(lr, func(n string, _ *ssa.CallCommon) bool { return strings.HasSuffix(n, want.callee) })
+		// a call of the method, or a call through a function value that may stand for it
+		// (`apply := cells.UnlockCell; if lock { apply = cells.LockCell }`), with what is known where
+		// that alternative was chosen
+		var calls [][]Atom
+		eachInstr(lr, func(in ssa.Instruction) {
+			cc := callCommon(in)
+			if cc == nil || cc.IsInvoke() {
+				return
+			}
+			if strings.HasSuffix(calleeName(cc), want.callee) {
+				calls = append(calls, guardsAt(in.Block()))
+				return
+			}
+			if cc.StaticCallee() == nil {
+				for _, alt := range handlerAlts(cc.Value, 0) {
+					if alt.kind == "fn" && strings.HasSuffix(want.callee, ")."+alt.name) {
+						calls = append(calls, append(guardsAt(in.Block()), alt.guards...))
+					}
+				}
+			}
+		})
 		ok := len(calls) > 0
-		for _, call := range calls {
-			g := guardsAt(call.Block())
+		for _, g := range calls {
 			found := false
 			for _, a := range g {
 				if a.L == "lock" && ((a.Op == "==" && a.R == want.val) || (a.Op == "!=" && a.R != want.val && (a.R == "true" || a.R == "false"))) {
@@ -245,7 +264,8 @@ func c13ShowPath(c *Ctx, p *Prog, tname, rule string) {
 				return
 			}
 			// (b) hidden half of a wide rune: SetDirty(x+1, y, true) under width > 1
-			if kind == "SetDirty(true)" && f.Name() == "draw" {
+			// (in draw, or in the helper that paints a row for it: the site is recognised by what it does)
+			if kind == "SetDirty(true)" && (f.Parent() == nil || f.Parent().Name() != "drawCell") {
 				arg := derefCell(cc.Args[1])
 				okArg := false
 				if bo, ok := arg.(*ssa.BinOp); ok && bo.Op == token.ADD {
@@ -259,8 +279,10 @@ func c13ShowPath(c *Ctx, p *Prog, tname, rule string) {
 						okW = true
 					}
 				}
-				c.Check(okArg && okW, rule, key, p.pos(in.Pos()), "documented neighbour site: column hidden by a wide rune, only when the painted width exceeds 1")
-				return
+				if f.Name() == "draw" || (okArg && okW) {
+					c.Check(okArg && okW, rule, key, p.pos(in.Pos()), "documented neighbour site: column hidden by a wide rune, only when the painted width exceeds 1")
+					return
+				}
 			}
 			// (c) the auto-margin corner trick inside drawCell's deferred closure
 			if kind == "SetDirty(true)" && f.Parent() != nil && f.Parent().Name() == "drawCell" {
